@@ -162,6 +162,16 @@ Fixpoint replace_bundle_conn {A} (child : scope) (parent : list (path * A)) : re
       end
   end.
 
+(* replace_bundle_conn as repaired (8fdfa58): everything the connected bundle brings along must have a place in the port's
+   bundle - an anonymous bundle with a member the port does not have is refused - then the pairing above *)
+Definition extra_members {A} (child : scope) (parent : list (path * A)) : list path :=
+  filter (fun p => negb (pmem p child)) (map fst parent).
+Definition replace_bundle_conn_checked {A} (child : scope) (parent : list (path * A)) : result (list (string * A)) :=
+  match extra_members child parent with
+  | [] => replace_bundle_conn child parent
+  | _ :: _ => Error EExtra
+  end.
+
 (* flatten_anonymous_bundle: members are signals (kept by name), flattened bundle instances / resolved bundle references
    (sub-scopes) or nested anonymous bundles *)
 Inductive anon (A : Type) :=
